@@ -361,3 +361,99 @@ def local_defs(fnode):
                 if isinstance(e, ast.Name):
                     defs.setdefault(e.id, []).append(('iter', n.iter, n))
     return defs
+
+
+# ---------------------------------------------------------------------------
+# linear forms and straight-line symbolic substitution
+
+def lin(expr):
+    """linear form of an integer expression: {term_src: coeff, '': const}; None if not linear"""
+    if isinstance(expr, ast.BinOp) and isinstance(expr.op, (ast.Add, ast.Sub)):
+        a, b = lin(expr.left), lin(expr.right)
+        if a is None or b is None:
+            return None
+        s = 1 if isinstance(expr.op, ast.Add) else -1
+        out = dict(a)
+        for k, v in b.items():
+            out[k] = out.get(k, 0) + s * v
+        return {k: v for k, v in out.items() if v}
+    if isinstance(expr, ast.UnaryOp) and isinstance(expr.op, ast.USub):
+        a = lin(expr.operand)
+        return None if a is None else {k: -v for k, v in a.items()}
+    if isinstance(expr, ast.Constant) and isinstance(expr.value, bool):
+        return {'': int(expr.value)} if expr.value else {}
+    if isinstance(expr, ast.Constant) and isinstance(expr.value, int):
+        return {'': expr.value} if expr.value else {}
+    if expr is None:
+        return None
+    return {src(expr): 1}
+
+
+def lin_diff(a, b):
+    """lin(a) - lin(b) or None"""
+    la, lb = lin(a), lin(b)
+    if la is None or lb is None:
+        return None
+    out = dict(la)
+    for k, v in lb.items():
+        out[k] = out.get(k, 0) - v
+    return {k: v for k, v in out.items() if v}
+
+
+class _Subst(ast.NodeTransformer):
+    def __init__(self, env):
+        self.env = env
+
+    def visit_Name(self, node):
+        if isinstance(node.ctx, ast.Load) and node.id in self.env:
+            import copy
+            return copy.deepcopy(self.env[node.id])
+        return node
+
+    def visit_Lambda(self, node):
+        return node
+
+
+def subst(expr, env):
+    import copy
+    return _Subst(env).visit(copy.deepcopy(expr))
+
+
+def sym_path(path, env=None):
+    """Walk the statements of a Path with copy propagation.  Yields
+    (kind, node, substituted_node, env_snapshot) for 'stmt' and 'test' events.
+    Names without an entry denote their value on entry (parameters)."""
+    env = dict(env or {})
+    out = []
+    for ev in path.events:
+        if ev[0] == 'test':
+            out.append(('test', ev[1], subst(ev[1], env), ev[2]))
+            continue
+        if ev[0] != 'stmt':
+            out.append((ev[0], ev[1], None, None))
+            continue
+        s = ev[1]
+        if isinstance(s, ast.Assign) and len(s.targets) == 1 and isinstance(s.targets[0], ast.Name):
+            v = subst(s.value, env)
+            out.append(('assign', s, v, s.targets[0].id))
+            env[s.targets[0].id] = v
+        elif isinstance(s, ast.Assign) and len(s.targets) == 1 and isinstance(s.targets[0], (ast.Tuple, ast.List)) \
+                and all(isinstance(e, ast.Name) for e in s.targets[0].elts):
+            v = subst(s.value, env)
+            out.append(('unpack', s, v, [e.id for e in s.targets[0].elts]))
+            if isinstance(v, (ast.Tuple, ast.List)) and len(v.elts) == len(s.targets[0].elts):
+                for e, x in zip(s.targets[0].elts, v.elts):
+                    env[e.id] = x
+            else:
+                for i, e in enumerate(s.targets[0].elts):
+                    env[e.id] = ast.Subscript(value=v, slice=ast.Constant(value=i), ctx=ast.Load())
+        elif isinstance(s, ast.AugAssign) and isinstance(s.target, ast.Name):
+            cur = env.get(s.target.id, ast.Name(id=s.target.id, ctx=ast.Load()))
+            v = ast.BinOp(left=cur, op=s.op, right=subst(s.value, env))
+            out.append(('assign', s, v, s.target.id))
+            env[s.target.id] = v
+        elif isinstance(s, ast.stmt):
+            out.append(('stmt', s, subst(s, env), None))
+        else:
+            out.append(('expr', s, subst(s, env), None))
+    return out, env
